@@ -17,7 +17,72 @@ func multiFault(c *fw.Ctx, n int, emit emitFn) {
 		sb.WriteString("JSIGHT 0.3\n")
 		k := 2 + r.Intn(4)
 		class := r.Intn(13)
+		if i%3 == 0 {
+			class = 13
+		}
 		switch class {
+		case 13: // a random reference graph of user types (cycles likely) where several types carry a fault of their own
+			nt := 3 + r.Intn(4)
+			faults := map[int]int{}
+			for len(faults) < 2+r.Intn(2) {
+				faults[r.Intn(nt)] = r.Intn(7)
+			}
+			sb.WriteString("TYPE @scalar\n  12 // {min: 1}\n")
+			for q := 0; q < nt; q++ {
+				var props []string
+				nrefs := 1 + r.Intn(3)
+				for x := 0; x < nrefs; x++ {
+					to := r.Intn(nt)
+					switch r.Intn(6) {
+					case 0:
+						props = append(props, fmt.Sprintf("\"r%d\": [@t%d]", x, to))
+					case 1:
+						props = append(props, fmt.Sprintf("\"r%d\": @t%d | @scalar", x, to))
+					case 2:
+						props = append(props, fmt.Sprintf("\"r%d\": @t%d // {optional: true}", x, to))
+					case 3:
+						props = append(props, fmt.Sprintf("\"r%d\": {} // {type: \"@t%d\"}", x, to))
+					default:
+						props = append(props, fmt.Sprintf("\"r%d\": @t%d", x, to))
+					}
+				}
+				head := "{"
+				if f, ok := faults[q]; ok {
+					switch f {
+					case 0:
+						props = append(props, fmt.Sprintf("\"x\": 1 // {min: %d}", 5+q))
+					case 1:
+						props = append(props, fmt.Sprintf("\"x\": \"s%d\" // {type: \"integer\"}", q))
+					case 2:
+						props = append(props, fmt.Sprintf("\"x\": @undefined%d", q))
+					case 3:
+						head = "{ // {allOf: \"@scalar\"}"
+					case 4:
+						props = append(props, fmt.Sprintf("\"x\": \"abc\" // {maxLength: %d}", q%3))
+					case 5:
+						props = append(props, fmt.Sprintf("\"x\": 5 // {enum: [%d, 99]}", 6+q))
+					case 6:
+						props = append(props, fmt.Sprintf("\"x\": 1, \"x\": %d", q))
+					}
+				}
+				r.Shuffle(len(props), func(a, b int) { props[a], props[b] = props[b], props[a] })
+				sb.WriteString(fmt.Sprintf("TYPE @t%d\n%s\n", q, head))
+				for x, pr := range props {
+					// the comma goes before a trailing annotation
+					ann := ""
+					if k := strings.Index(pr, " //"); k >= 0 {
+						pr, ann = pr[:k], pr[k:]
+					}
+					if x < len(props)-1 {
+						pr += ","
+					}
+					sb.WriteString("  " + pr + ann + "\n")
+				}
+				sb.WriteString("}\n")
+			}
+			if r.Intn(2) == 0 {
+				sb.WriteString(fmt.Sprintf("GET /g\n  200 @t%d\n  201\n    {\"a\": @t%d, \"b\": @t%d}\n", r.Intn(nt), r.Intn(nt), r.Intn(nt)))
+			}
 		case 0: // several self-recursive macros
 			for q := 0; q < k; q++ {
 				sb.WriteString(fmt.Sprintf("MACRO @m%d\n(\n  TYPE @t%d any\n  PASTE @m%d\n)\n", q, q, q))
@@ -86,7 +151,7 @@ func C06(c *fw.Ctx) {
 	reps := c.Pick(12, 40)
 	c.Rule(fmt.Sprintf("every project is built %d times in one worker process (Go re-randomises each map iteration) and again in two other fresh "+
 		"worker processes; ToJson bytes / the full error tuple (message, file, index, line, column, quote, Error()) and the OpenAPI bytes must be "+
-		"identical. Projects: corpus, light mutants, targeted documents and multi-fault documents (2-5 simultaneous faults of one class); "+
+		"identical. Projects: corpus, light mutants, targeted documents and multi-fault documents (2-5 simultaneous faults of one class; every third one a random reference graph of 3-6 user types - references, arrays, unions, optional, type rule naming a user type, cycles likely - in which 2-3 types carry a fault of their own: value, type, undefined name, allOf of a scalar, maxLength, enum, duplicate key); "+
 		"distinct = distinct project bytes; non-trivial = the project was built at least 2x%d times and compared", reps, reps))
 	c.Assume("address dependence is sampled by 3 processes with ASLR on; time dependence is not separately provoked")
 	pool := c.Pool(false, 0)
